@@ -25,6 +25,32 @@ CLAIMED = {
             "successful setter produces the Standard's state is value-level and not decided.",
             "typestate dataflow over per-instantiation CFGs with interprocedural summaries",
             "DESIGN.md §5 C03", "partial: the 'fails atomically' sentence"),
+    "C07": ("other",
+            "Decides the offset-shift discipline of all 21 buffer editors (84 shifts) path-sensitively: every shift "
+            "applied to a component offset is applied to every later offset on the same path unless that offset is "
+            "known omitted or recomputed; optional offsets are shifted only under a `!= omitted` fact; offsets behind "
+            "a buffer edit position are updated; members are owning value types with compiler-generated copy/move; "
+            "only the frozen friends can write buffer/components. Whether validate() accepts every reachable object "
+            "(values of deltas) is not decided.",
+            "typestate dataflow over editor CFGs with callee summaries + record/friend queries",
+            "DESIGN.md §5 C07", "partial: shape of the editors, not the values"),
+    "C13": ("other",
+            "The premises from which the C++ memory model gives race freedom in every interleaving are decided as "
+            "shape facts: publish-before-READY (dominance/post-dominance in ensure_tables), release/acquire orders on "
+            "every operation of the state variable, single writer, every table reader reached only through call sites "
+            "dominated by a successful readiness check (must-dataflow + call-graph propagation), atomic limit touched "
+            "only by its accessors, and no other writable static state (writes through reference parameters "
+            "included). The spin-wait timeout (liveness) is not decided.",
+            "CFG dominance / must-dataflow of guard facts + who-writes and call-graph queries + parameter-mod summaries",
+            "DESIGN.md §5 C13", "relies on the C++20 memory model's release/acquire guarantee"),
+    "C17": ("other",
+            "All 79 extern \"C\" functions: every dereference of the handle is dominated by its engagement check "
+            "(must-dataflow over the CFG), the failed-handle exit returns the documented default, each wrapper calls "
+            "the member of the same name and pairs data()/length() of one object, pointer/length parameters are "
+            "paired, allocation/access/free types agree per handle, header (parsed as C) and implementation agree on "
+            "signatures and struct layouts (ada_url_components field by field with ada::url_components).",
+            "must-dataflow of engagement facts + slot-consistency and type-agreement queries over resolved AST facts",
+            "DESIGN.md §5 C17", "what remains is the behaviour of the wrapped C++ operations (other properties)"),
     "C09": ("other",
             "Must-pass-through property decided on every CFG path: each success-capable exit of the parser (both URL "
             "types) and each success exit of the 24 setter bodies is behind the 'fits' edge of a size-vs-limit "
@@ -50,7 +76,7 @@ NOT_APPLICABLE = {
            "no table, ordering, pairing or ownership fact whose breakage is necessary for a violation",
 }
 
-PENDING = {'C02': 'check not built yet in this round (see DESIGN.md §11 build order); not claimed until it is', 'C04': 'check not built yet in this round (see DESIGN.md §11 build order); not claimed until it is', 'C05': 'check not built yet in this round (see DESIGN.md §11 build order); not claimed until it is', 'C07': 'check not built yet in this round (see DESIGN.md §11 build order); not claimed until it is', 'C08': 'check not built yet in this round (see DESIGN.md §11 build order); not claimed until it is', 'C10': 'check not built yet in this round (see DESIGN.md §11 build order); not claimed until it is', 'C12': 'check not built yet in this round (see DESIGN.md §11 build order); not claimed until it is', 'C13': 'check not built yet in this round (see DESIGN.md §11 build order); not claimed until it is', 'C14': 'check not built yet in this round (see DESIGN.md §11 build order); not claimed until it is', 'C15': 'check not built yet in this round (see DESIGN.md §11 build order); not claimed until it is', 'C17': 'check not built yet in this round (see DESIGN.md §11 build order); not claimed until it is', 'C18': 'check not built yet in this round (see DESIGN.md §11 build order); not claimed until it is', 'C19': 'check not built yet in this round (see DESIGN.md §11 build order); not claimed until it is'}   # id -> reason, for properties whose check is not built yet
+PENDING = {'C02': 'check not built yet in this round (see DESIGN.md §11 build order); not claimed until it is', 'C04': 'check not built yet in this round (see DESIGN.md §11 build order); not claimed until it is', 'C05': 'check not built yet in this round (see DESIGN.md §11 build order); not claimed until it is', 'C08': 'check not built yet in this round (see DESIGN.md §11 build order); not claimed until it is', 'C10': 'check not built yet in this round (see DESIGN.md §11 build order); not claimed until it is', 'C12': 'check not built yet in this round (see DESIGN.md §11 build order); not claimed until it is', 'C14': 'check not built yet in this round (see DESIGN.md §11 build order); not claimed until it is', 'C15': 'check not built yet in this round (see DESIGN.md §11 build order); not claimed until it is', 'C18': 'check not built yet in this round (see DESIGN.md §11 build order); not claimed until it is', 'C19': 'check not built yet in this round (see DESIGN.md §11 build order); not claimed until it is'}   # id -> reason, for properties whose check is not built yet
 
 
 def main():
